@@ -151,23 +151,36 @@ theorem checksum_wrap_witness :
     wrapWitness.length = 131078 ∧ BytesWF wrapWitness ∧ checksum wrapWitness = 65528 ∧
     ¬ Valid1071 (xorCsumAt wrapWitness 2 (checksum wrapWitness)) := by
   have hlen : wrapWitness.length = 131078 := by
-    simp only [wrapWitness, List.length_append, List.length_replicate, List.length_cons, List.length_nil]
+    show ([8, 0, 0, 0, 255, 255, 255, 255] ++ List.replicate (2 * 65535) 255).length = 131078
+    rw [List.length_append, List.length_replicate]
+    rfl
   have hwf : BytesWF wrapWitness := by
     intro b hb
-    simp only [wrapWitness, List.mem_append, List.mem_replicate, List.mem_cons, List.not_mem_nil] at hb
-    omega
+    have hb' : b ∈ [8, 0, 0, 0, 255, 255, 255, 255] ++ List.replicate (2 * 65535) 255 := hb
+    rw [List.mem_append, List.mem_replicate] at hb'
+    rcases hb' with h | h
+    · have : ∀ x ∈ [8, 0, 0, 0, 255, 255, 255, 255], x < 256 := by decide
+      exact this b h
+    · omega
   have hc : checksum wrapWitness = 65528 := by
     unfold checksum
     rw [sumWords_mod _ _ (by decide), wrapWitness_sum]
-    decide
+    have h : (0 + (4294967296 + 7)) % 4294967296 = 7 := by omega
+    rw [h]
+    have := fold16_spec 7 (by omega)
+    omega
   refine ⟨hlen, hwf, hc, ?_⟩
   rw [hc]
   have hw : wrapWitness = 8 :: 0 :: 0 :: 0 :: ([255, 255, 255, 255] ++ List.replicate (2 * 65535) 255) := rfl
   rw [hw, xorCsumAt_hdr]
+  have hsh : (8 :: 0 :: (65528 % 256) :: (65528 / 256 % 256) :: ([255, 255, 255, 255] ++ List.replicate (2 * 65535) 255))
+      = [8, 0, 65528 % 256, 65528 / 256 % 256, 255, 255, 255, 255] ++ List.replicate (2 * 65535) 255 := rfl
+  rw [hsh]
   unfold Valid1071
-  simp only [exactSum]
-  rw [exactSum_append _ _ (by decide), exactSum_replicate_ff]
-  simp only [exactSum]
+  rw [exactSum_append _ _ (by rfl), exactSum_replicate_ff]
+  have hs : exactSum [8, 0, 65528 % 256, 65528 / 256 % 256, 255, 255, 255, 255] = 8 + 65528 + 65535 + 65535 := by
+    decide
+  rw [hs]
   omega
 
 /-! ### Part B: shape of `Message.Marshal` -/
@@ -209,10 +222,10 @@ theorem marshal_v4_checksum_valid (m : Msg) (hp : m.proto = protocolICMP) (ht : 
     intro b hbm
     simp at hbm
     rcases hbm with h | h | h | h | h
-    · omega
-    · omega
-    · omega
-    · omega
+    · rw [h]; exact Nat.mod_lt _ (by decide)
+    · rw [h]; exact hu
+    · rw [h]; decide
+    · rw [h]; decide
     · exact hwf b h
   unfold Msg.marshal at hw
   unfold bodyBytes at hb
@@ -238,11 +251,16 @@ def wrapMsg : Msg :=
   { proto := protocolICMP, typ := v4Echo, code := 0, cksum := 0,
     body := .echo 65535 65535 (List.replicate (2 * 65535) 255) }
 
+theorem echo_bodyBytes (proto typ : Nat) (code : Int) (ck : Nat) (id seq : Int) (d : List Nat) :
+    bodyBytes ⟨proto, typ, code, ck, .echo id seq d⟩ = some (be16 id ++ be16 seq ++ d) := by
+  unfold bodyBytes
+  simp [Body.len, Body.marshal]
+
 theorem wrapMsg_body : bodyBytes wrapMsg = some ([255, 255, 255, 255] ++ List.replicate (2 * 65535) 255) := by
-  unfold bodyBytes wrapMsg
-  have h : (65535 : Int) / 256 % 256 = 255 ∧ (65535 : Int) % 256 = 255 := by decide
-  simp only [Body.len, Body.marshal, be16, h]
-  simp only [ne_eq, reduceCtorEq, not_false_eq_true, true_and]
+  unfold wrapMsg
+  rw [echo_bodyBytes]
+  have h : be16 65535 = [255, 255] := by decide
+  rw [h]
   rfl
 
 /-- **The statement is false beyond the accumulator bound** (literal reading: all body sizes). -/
@@ -252,8 +270,11 @@ theorem checksum_full_false : ¬ ChecksumStatement := by
   have hm := marshal_v4 wrapMsg rfl _ hb
   have hwf : BytesWF ([255, 255, 255, 255] ++ List.replicate (2 * 65535) 255) := by
     intro b hbm
-    simp at hbm
-    omega
+    rw [List.mem_append, List.mem_replicate] at hbm
+    rcases hbm with h | h
+    · have : ∀ x ∈ [255, 255, 255, 255], x < 256 := by decide
+      exact this b h
+    · omega
   have := h wrapMsg _ _ rfl (by decide) hb hwf hm
   obtain ⟨_, _, hc, hnv⟩ := checksum_wrap_witness
   apply hnv
@@ -269,4 +290,299 @@ theorem checksum_holds_partial :
     ∀ (m : Msg) (mb wire : List Nat), m.proto = protocolICMP → m.typ < 256 → bodyBytes m = some mb →
       BytesWF mb → m.marshal none = some wire → wire.length ≤ 131076 → Valid1071 wire :=
   fun m mb wire hp ht hb hwf hw hlen => marshal_v4_checksum_valid m hp ht mb wire hb hwf hw hlen
+
+/-! ### Part C: round trips of the fixed-layout bodies -/
+
+theorem be16_rd16 (x : Int) (h0 : 0 ≤ x) (h1 : x < 65536) (rest : List Nat) :
+    ((rd16 (be16 x ++ rest) : Nat) : Int) = x := by
+  simp [rd16, be16]
+  omega
+
+theorem be32_rd32 (x : Int) (h0 : 0 ≤ x) (h1 : x < 4294967296) (rest : List Nat) :
+    ((rd32 (be32 x ++ rest) : Nat) : Int) = x := by
+  simp [rd32, be32]
+  omega
+
+theorem u8_id (x : Int) (h0 : 0 ≤ x) (h1 : x < 256) : ((u8 x : Nat) : Int) = x := by
+  unfold u8; omega
+
+/-- `ParseMessage` on `[type, code, c0, c1] ++ body`. -/
+theorem parseMessage_hdr (proto typ code c0 c1 : Nat) (rest : List Nat)
+    (hp : proto = protocolICMP ∨ proto = protocolIPv6ICMP) :
+    parseMessage proto (typ :: code :: c0 :: c1 :: rest) =
+      (parseBody proto typ rest).map (fun body => ⟨proto, typ, (code : Int), c0 * 256 + c1, body⟩) := by
+  unfold parseMessage
+  have h : ¬ (proto ≠ protocolICMP ∧ proto ≠ protocolIPv6ICMP) := by
+    rcases hp with h | h <;> simp [h, protocolICMP, protocolIPv6ICMP]
+  simp only [List.length_cons, h, if_false]
+  have hl : ¬ (rest.length + 1 + 1 + 1 + 1 < 4) := by omega
+  simp only [hl, if_false, List.getD_cons_zero, List.getD_cons_succ, List.drop_succ_cons, List.drop_zero, rd16]
+  cases parseBody proto typ rest <;> simp
+
+theorem parseBody_echo (proto typ : Nat) (hk : parserKind proto typ = .echo) (id seq : Int) (data : List Nat)
+    (hid : 0 ≤ id ∧ id < 65536) (hseq : 0 ≤ seq ∧ seq < 65536) :
+    parseBody proto typ (be16 id ++ be16 seq ++ data) = some (.echo id seq data) := by
+  have e1 := be16_rd16 id hid.1 hid.2 (be16 seq ++ data)
+  have e2 := be16_rd16 seq hseq.1 hseq.2 data
+  have d2 : (be16 id ++ be16 seq ++ data).drop 2 = be16 seq ++ data := by simp [be16]
+  have d4 : (be16 id ++ be16 seq ++ data).drop 4 = data := by simp [be16]
+  have hl : ¬ ((be16 id ++ be16 seq ++ data).length < 4) := by simp [be16]
+  unfold parseBody
+  rw [hk]
+  simp only [hl, if_false, d2, d4]
+  rw [List.append_assoc, e1, e2]
+
+/-- A message as sent (checksum field of the struct is ignored by `Marshal`). -/
+def mkMsg (proto typ : Nat) (code : Int) (body : Body) : Msg := ⟨proto, typ, code, 0, body⟩
+
+/-- Round trip modulo the received checksum: `ParseMessage(Marshal(m))` is `m` with some checksum. -/
+def RoundTrips (proto typ : Nat) (code : Int) (body : Body) (psh : Option (List Nat)) : Prop :=
+  ∃ wire, (mkMsg proto typ code body).marshal psh = some wire ∧
+    (parseMessage proto wire).map (fun m => (m.proto, m.typ, m.code, m.body)) = some (proto, typ, code, body)
+
+/-- **Echo / echo reply, ICMPv4 and ICMPv6 (no pseudo-header), every data size.** -/
+theorem echo_roundtrip (proto typ : Nat) (hp : proto = protocolICMP ∨ proto = protocolIPv6ICMP)
+    (ht : typ < 256) (hk : parserKind proto typ = .echo) (code id seq : Int) (data : List Nat)
+    (hc : 0 ≤ code ∧ code < 256) (hid : 0 ≤ id ∧ id < 65536) (hseq : 0 ≤ seq ∧ seq < 65536) :
+    RoundTrips proto typ code (.echo id seq data) none := by
+  have hb := echo_bodyBytes proto typ code 0 id seq data
+  have hpb := parseBody_echo proto typ hk id seq data hid hseq
+  have hu := u8_id code hc.1 hc.2
+  have htm : typ % 256 = typ := Nat.mod_eq_of_lt ht
+  rcases hp with hp | hp
+  · have hm := marshal_v4 (mkMsg proto typ code (.echo id seq data)) hp _ hb
+    refine ⟨_, hm, ?_⟩
+    simp only [mkMsg, List.cons_append, List.nil_append, htm]
+    rw [parseMessage_hdr _ _ _ _ _ _ (Or.inl hp), hpb]
+    simp [hu]
+  · have hm := marshal_v6_nopsh (mkMsg proto typ code (.echo id seq data)) hp _ hb
+    refine ⟨_, hm, ?_⟩
+    simp only [mkMsg, List.cons_append, List.nil_append, htm]
+    rw [parseMessage_hdr _ _ _ _ _ _ (Or.inr hp), hpb]
+    simp [hu]
+
+theorem copyAt_exact (pre old new post : List Nat) (h : old.length = new.length) :
+    copyAt (pre ++ old ++ post) pre.length new = pre ++ new ++ post := by
+  unfold copyAt
+  have h1 : (pre ++ old ++ post).length - pre.length = old.length + post.length := by simp
+  have h2 : new.take (old.length + post.length) = new := by
+    apply List.take_of_length_le; omega
+  rw [h1, h2]
+  have h3 : (pre ++ old ++ post).take pre.length = pre := by simp
+  have h4 : (pre ++ old ++ post).drop (pre.length + new.length) = post := by
+    rw [← h, List.append_assoc, ← List.drop_drop]
+    simp
+  rw [h3, h4]
+
+theorem zeros_add (a b : Nat) : zeros (a + b) = zeros a ++ zeros b := by
+  simp [zeros, List.replicate_append_replicate]
+
+theorem pp6_bytes (ptr : Int) (data : List Nat) :
+    copyAt (copyAt (zeros (4 + data.length)) 0 (be32 ptr)) 4 data = be32 ptr ++ data := by
+  have e1 : zeros (4 + data.length) = [] ++ zeros 4 ++ zeros data.length := by
+    rw [zeros_add]; simp
+  have hl : (be32 ptr).length = 4 := by simp [be32]
+  have := copyAt_exact [] (zeros 4) (be32 ptr) (zeros data.length) (by simp [zeros, hl])
+  simp only [List.length_nil] at this
+  rw [e1, this]
+  have := copyAt_exact (be32 ptr) (zeros data.length) data [] (by simp [zeros])
+  simp only [hl, List.append_nil] at this
+  simpa using this
+
+/-- Generic assembly: body bytes + body parser ⇒ round trip (ICMPv4, or ICMPv6 without pseudo-header). -/
+theorem roundtrip_of (proto typ : Nat) (hp : proto = protocolICMP ∨ proto = protocolIPv6ICMP)
+    (ht : typ < 256) (code : Int) (hc : 0 ≤ code ∧ code < 256) (body body' : Body) (mb : List Nat)
+    (hb : bodyBytes (mkMsg proto typ code body) = some mb)
+    (hpb : parseBody proto typ mb = some body') :
+    ∃ wire, (mkMsg proto typ code body).marshal none = some wire ∧
+      (parseMessage proto wire).map (fun m => (m.proto, m.typ, m.code, m.body)) = some (proto, typ, code, body') := by
+  have hu := u8_id code hc.1 hc.2
+  have htm : typ % 256 = typ := Nat.mod_eq_of_lt ht
+  rcases hp with hp | hp
+  · have hm := marshal_v4 (mkMsg proto typ code body) hp _ hb
+    refine ⟨_, hm, ?_⟩
+    simp only [mkMsg, List.cons_append, List.nil_append, htm]
+    rw [parseMessage_hdr _ _ _ _ _ _ (Or.inl hp), hpb]
+    simp [hu]
+  · have hm := marshal_v6_nopsh (mkMsg proto typ code body) hp _ hb
+    refine ⟨_, hm, ?_⟩
+    simp only [mkMsg, List.cons_append, List.nil_append, htm]
+    rw [parseMessage_hdr _ _ _ _ _ _ (Or.inr hp), hpb]
+    simp [hu]
+
+/-- **Extended echo reply.** -/
+theorem extEchoReply_roundtrip (proto typ : Nat) (hp : proto = protocolICMP ∨ proto = protocolIPv6ICMP)
+    (ht : typ < 256) (hk : parserKind proto typ = .xrep) (code id seq state : Int) (active v4 v6 : Bool)
+    (hc : 0 ≤ code ∧ code < 256) (hid : 0 ≤ id ∧ id < 65536) (hseq : 0 ≤ seq ∧ seq < 256)
+    (hst : 0 ≤ state ∧ state < 8) :
+    RoundTrips proto typ code (.extEchoReply id seq state active v4 v6) none := by
+  apply roundtrip_of proto typ hp ht code hc _ _
+    (be16 id ++ [u8 seq, (state % 8).toNat * 32 + (if active then 4 else 0) + (if v4 then 2 else 0) + (if v6 then 1 else 0)])
+  · unfold bodyBytes mkMsg
+    simp [Body.len, Body.marshal]
+  · unfold parseBody
+    rw [hk]
+    have e1 := be16_rd16 id hid.1 hid.2
+      [u8 seq, (state % 8).toNat * 32 + (if active then 4 else 0) + (if v4 then 2 else 0) + (if v6 then 1 else 0)]
+    have e2 := u8_id seq hseq.1 hseq.2
+    have hl : (be16 id).length = 2 := by simp [be16]
+    simp only [List.length_append, hl, List.length_cons, List.length_nil]
+    simp only [show ¬ (2 + (0 + 1 + 1) < 4) by omega, if_false, e1]
+    have g2 : (be16 id ++ [u8 seq, (state % 8).toNat * 32 + (if active then 4 else 0) + (if v4 then 2 else 0) + (if v6 then 1 else 0)]).getD 2 0 = u8 seq := by
+      simp [be16]
+    have g3 : (be16 id ++ [u8 seq, (state % 8).toNat * 32 + (if active then 4 else 0) + (if v4 then 2 else 0) + (if v6 then 1 else 0)]).getD 3 0 =
+        (state % 8).toNat * 32 + (if active then 4 else 0) + (if v4 then 2 else 0) + (if v6 then 1 else 0) := by
+      simp [be16]
+    rw [g2, g3, e2]
+    have hs : ((state % 8).toNat : Int) = state := by omega
+    generalize hn : (state % 8).toNat = n at *
+    have hn8 : n < 8 := by omega
+    cases active <;> cases v4 <;> cases v6 <;> simp <;> omega
+
+/-- **Packet too big** (ICMPv6). -/
+theorem packetTooBig_roundtrip (typ : Nat) (ht : typ < 256) (hk : parserKind protocolIPv6ICMP typ = .ptb)
+    (code mtu : Int) (data : List Nat) (hc : 0 ≤ code ∧ code < 256) (hm : 0 ≤ mtu ∧ mtu < 4294967296) :
+    RoundTrips protocolIPv6ICMP typ code (.packetTooBig mtu data) none := by
+  apply roundtrip_of _ typ (Or.inr rfl) ht code hc _ _ (be32 mtu ++ data)
+  · unfold bodyBytes mkMsg
+    simp [Body.len, Body.marshal]
+  · unfold parseBody
+    rw [hk]
+    have e1 := be32_rd32 mtu hm.1 hm.2 data
+    have hl : ¬ ((be32 mtu ++ data).length < 4) := by simp [be32]
+    have d4 : (be32 mtu ++ data).drop 4 = data := by simp [be32]
+    simp only [hl, if_false, d4, e1]
+
+/-- **Parameter problem, ICMPv6** (no RFC 4884 structure; extensions must be empty — see
+`paramprob_v6_exts_dropped`). -/
+theorem paramProb_v6_roundtrip (typ : Nat) (ht : typ < 256) (hk : parserKind protocolIPv6ICMP typ = .pp)
+    (code ptr : Int) (data : List Nat) (hc : 0 ≤ code ∧ code < 256) (hm : 0 ≤ ptr ∧ ptr < 4294967296) :
+    RoundTrips protocolIPv6ICMP typ code (.paramProb ptr data []) none := by
+  apply roundtrip_of _ typ (Or.inr rfl) ht code hc _ _ (be32 ptr ++ data)
+  · unfold bodyBytes mkMsg
+    have hne : ¬ (protocolIPv6ICMP = protocolICMP) := by decide
+    simp [Body.len, Body.marshal, multipartLens, hne, pp6_bytes]
+  · unfold parseBody
+    rw [hk]
+    have e1 := be32_rd32 ptr hm.1 hm.2 data
+    have hl : ¬ ((be32 ptr ++ data).length < 4) := by simp [be32]
+    have d4 : (be32 ptr ++ data).drop 4 = data := by simp [be32]
+    simp only [hl, if_false, d4, e1]
+    simp
+
+/-- **Raw body under a type without a registered parser.** -/
+theorem raw_roundtrip (proto typ : Nat) (hp : proto = protocolICMP ∨ proto = protocolIPv6ICMP)
+    (ht : typ < 256) (hk : parserKind proto typ = .raw) (code : Int) (data : List Nat)
+    (hc : 0 ≤ code ∧ code < 256) :
+    RoundTrips proto typ code (.raw data) none := by
+  apply roundtrip_of proto typ hp ht code hc _ _ data
+  · unfold bodyBytes mkMsg
+    simp [Body.len, Body.marshal]
+  · unfold parseBody
+    rw [hk]
+
+/-! ### Part E: `ipv4.Header` (Linux field order) -/
+
+/-- Headers the wire format represents faithfully: version 4, `Len = 20 + len(Options)`, options a
+multiple of 4 and at most 40 bytes, every field within its wire width, IPv4 addresses. -/
+def HeaderWF (h : Header) : Prop :=
+  h.version = 4 ∧ h.len = 20 + h.options.length ∧ h.options.length % 4 = 0 ∧ h.options.length ≤ 40 ∧
+  (0 ≤ h.tos ∧ h.tos < 256) ∧ (0 ≤ h.totalLen ∧ h.totalLen < 65536) ∧ (0 ≤ h.id ∧ h.id < 65536) ∧
+  (0 ≤ h.flags ∧ h.flags < 8) ∧ (0 ≤ h.fragOff ∧ h.fragOff < 8192) ∧ (0 ≤ h.ttl ∧ h.ttl < 256) ∧
+  (0 ≤ h.protocol ∧ h.protocol < 256) ∧ (0 ≤ h.cksum ∧ h.cksum < 65536) ∧
+  h.src.length = 4 ∧ h.dst.length = 4
+
+theorem list4 (l : List Nat) (h : l.length = 4) : ∃ a b c d, l = [a, b, c, d] := by
+  match l, h with
+  | [a, b, c, d], _ => exact ⟨a, b, c, d, rfl⟩
+
+/-- **IPv4 header round trip**: `ParseHeader(h.Marshal()) = h` on `HeaderWF`. -/
+theorem header_roundtrip (h : Header) (hwf : HeaderWF h) :
+    ∃ wire, h.marshal = .ok wire ∧ wire.length = 20 + h.options.length ∧ parseHeader wire = .ok h := by
+  obtain ⟨hv, hl, ho4, ho40, htos, htl, hid, hfl, hfo, httl, hpr, hck, hs, hd⟩ := hwf
+  obtain ⟨s0, s1, s2, s3, hs'⟩ := list4 _ hs
+  obtain ⟨d0, d1, d2, d3, hd'⟩ := list4 _ hd
+  cases h with
+  | mk version len tos totalLen id flags fragOff ttl protocol cksum src dst options =>
+  simp only at hv hl ho4 ho40 htos htl hid hfl hfo httl hpr hck hs' hd'
+  subst hv hl hs' hd'
+  have hlen : ¬ ((20 : Int) + options.length < (headerLen : Nat)) := by simp [headerLen]; omega
+  have e_tl := be16_rd16 totalLen htl.1 htl.2
+  have e_id := be16_rd16 id hid.1 hid.2
+  have e_ck := be16_rd16 cksum hck.1 hck.2
+  have hff : 0 ≤ fragOff % 8192 + flags * 8192 ∧ fragOff % 8192 + flags * 8192 < 65536 := by omega
+  have e_ff := be16_rd16 (fragOff % 8192 + flags * 8192) hff.1 hff.2
+  have u_tos := u8_id tos htos.1 htos.2
+  have u_ttl := u8_id ttl httl.1 httl.2
+  have u_pr := u8_id protocol hpr.1 hpr.2
+  refine ⟨[4 * 16 + (headerLen + options.length) / 4 % 16, u8 tos] ++ be16 totalLen ++ be16 id ++
+      be16 (fragOff % 8192 + flags * 8192) ++ [u8 ttl, u8 protocol] ++ be16 cksum ++
+      [s0, s1, s2, s3] ++ [d0, d1, d2, d3] ++ options, ?_, ?_, ?_⟩
+  · simp only [Header.marshal, hlen, if_false, isV4]
+    simp [last4]
+  · simp [be16]; omega
+  · have hq : (headerLen + options.length) / 4 % 16 * 4 = 20 + options.length := by
+      simp only [headerLen]; omega
+    simp only [parseHeader, be16, List.cons_append, List.nil_append, List.length_cons, List.length_append,
+      List.length_nil, List.getD_cons_zero, List.getD_cons_succ, List.drop_succ_cons, List.drop_zero]
+    have hq2 : (4 * 16 + (headerLen + options.length) / 4 % 16) % 16 * 4 = 20 + options.length := by omega
+    have hq3 : (4 * 16 + (headerLen + options.length) / 4 % 16) / 16 = 4 := by omega
+    rw [hq2, hq3]
+    rw [if_neg (by simp only [headerLen]; omega), if_neg (by omega)]
+    simp only [rd16, List.getD_cons_zero, List.getD_cons_succ, headerLen]
+    have hopt : (if 20 + options.length > 20 then List.take (20 + options.length - 20) options else []) = options := by
+      split
+      · rw [show 20 + options.length - 20 = options.length by omega, List.take_length]
+      · have : options.length = 0 := by omega
+        exact (List.eq_nil_of_length_eq_zero this).symm
+    simp only [List.take_succ_cons, List.take_zero, List.drop_succ_cons, List.drop_zero, hopt]
+    congr 1
+    simp only [Header.mk.injEq, and_true, true_and]
+    clear hq hq2 hq3 hlen hs hd
+    unfold u8 at *
+    refine ⟨?_, ?_, ?_, ?_, ?_, ?_, ?_, ?_, ?_, ?_⟩
+    all_goals omega
+
+/-! ### Part F: constants and the `parseFns` table regenerated from the Go source -/
+
+theorem gen_protocols_eq :
+    Gen.C60.iana_ProtocolICMP = protocolICMP ∧ Gen.C60.iana_ProtocolIPv6ICMP = protocolIPv6ICMP ∧
+    Gen.C60.iana_AddrFamilyIPv4 = addrFamilyIPv4 ∧ Gen.C60.iana_AddrFamilyIPv6 = addrFamilyIPv6 ∧
+    Gen.C60.v4_Version = 4 ∧ Gen.C60.v4_HeaderLen = headerLen := by decide
+
+theorem gen_types_eq :
+    Gen.C60.v4_ICMPTypeEchoReply = v4EchoReply ∧ Gen.C60.v4_ICMPTypeDestinationUnreachable = v4DstUnreach ∧
+    Gen.C60.v4_ICMPTypeEcho = v4Echo ∧ Gen.C60.v4_ICMPTypeTimeExceeded = v4TimeExceeded ∧
+    Gen.C60.v4_ICMPTypeParameterProblem = v4ParamProb ∧ Gen.C60.v4_ICMPTypeExtendedEchoRequest = v4ExtEchoRequest ∧
+    Gen.C60.v4_ICMPTypeExtendedEchoReply = v4ExtEchoReply ∧
+    Gen.C60.v6_ICMPTypeDestinationUnreachable = v6DstUnreach ∧ Gen.C60.v6_ICMPTypePacketTooBig = v6PacketTooBig ∧
+    Gen.C60.v6_ICMPTypeTimeExceeded = v6TimeExceeded ∧ Gen.C60.v6_ICMPTypeParameterProblem = v6ParamProb ∧
+    Gen.C60.v6_ICMPTypeEchoRequest = v6EchoRequest ∧ Gen.C60.v6_ICMPTypeEchoReply = v6EchoReply ∧
+    Gen.C60.v6_ICMPTypeExtendedEchoRequest = v6ExtEchoRequest ∧ Gen.C60.v6_ICMPTypeExtendedEchoReply = v6ExtEchoReply := by
+  decide
+
+theorem gen_extension_consts_eq :
+    Gen.C60.icmp_extensionVersion = extensionVersion ∧ Gen.C60.icmp_classMPLSLabelStack = classMPLSLabelStack ∧
+    Gen.C60.icmp_typeIncomingMPLSLabelStack = typeIncomingMPLSLabelStack ∧
+    Gen.C60.icmp_classInterfaceInfo = classInterfaceInfo ∧ Gen.C60.icmp_classInterfaceIdent = classInterfaceIdent ∧
+    (Gen.C60.icmp_typeInterfaceByName : Int) = typeInterfaceByName ∧
+    (Gen.C60.icmp_typeInterfaceByIndex : Int) = typeInterfaceByIndex ∧
+    (Gen.C60.icmp_typeInterfaceByAddress : Int) = typeInterfaceByAddress ∧
+    Gen.C60.icmp_attrMTU = attrMTU ∧ Gen.C60.icmp_attrName = attrName ∧
+    Gen.C60.icmp_attrIPAddr = attrIPAddr ∧ Gen.C60.icmp_attrIfIndex = attrIfIndex := by decide
+
+def pkOfName (s : String) : PK :=
+  if s = "parseEcho" then .echo else if s = "parseExtendedEchoRequest" then .xreq
+  else if s = "parseExtendedEchoReply" then .xrep else if s = "parseDstUnreach" then .du
+  else if s = "parseTimeExceeded" then .te else if s = "parseParamProb" then .pp
+  else if s = "parsePacketTooBig" then .ptb else .raw
+
+/-- The model's dispatch is exactly the regenerated `parseFns` map: every entry selects the same
+parser, and every (protocol, type) without an entry falls back to the raw body. -/
+theorem gen_parseFns_eq :
+    (∀ e ∈ Gen.C60.parseFns, parserKind e.1 e.2.1 = pkOfName e.2.2 ∧ pkOfName e.2.2 ≠ .raw) ∧
+    (∀ p ∈ [protocolICMP, protocolIPv6ICMP], ∀ t ∈ List.range 256,
+      (Gen.C60.parseFns.all fun e => !(e.1 == p && e.2.1 == t)) = true → parserKind p t = .raw) := by
+  decide +kernel
+
 end NetVerif.Proofs.C60
